@@ -905,7 +905,7 @@ cond2expr = {'EQ': ExprOp("CC_EQ", zf),
              'GT': ExprOp("CC_S>", nf, of, zf),
              'LE': ExprOp("CC_S<=", nf, of, zf),
              'AL': ExprInt(1, 1),
-             'NV': ExprInt(0, 1)
+             'NV': ExprInt(1, 1)
              }
 
 
